@@ -38,12 +38,14 @@ ACES_IOS = [
     "permit tcp host 10.0.0.1 eq 80 10.0.0.0 0.0.0.255 eq 443 ack",
     "permit tcp any any syn fin", "permit tcp any any fin", "permit tcp any any ack syn fin", "permit 200 any any", "permit 201 any any", "permit 4 any any",
     "permit ipip any any", "permit udp any any", "permit 17 any any eq 53",
+    "permit ip 10.0.0.0 128.0.0.255 any", "permit ip 138.0.0.0 0.0.0.255 any", "permit ip 10.0.0.0 0.0.1.0 any", "permit ip 10.0.1.0 0.0.0.0 any",
 ]
 
 
 def to_nxos(line):
     rep = {"host 10.0.0.1": "10.0.0.1/32", "10.0.0.0 0.0.0.255": "10.0.0.0/24", "10.0.0.0 0.0.1.255": "10.0.0.0/23",
-           "10.0.1.0 0.0.0.3": "10.0.1.0/30", "10.0.0.0 0.0.0.3": "10.0.0.0/30", "object-group": "addrgroup", "eq 80 443": "eq 443", "permit ipip": "permit 94"}
+           "10.0.1.0 0.0.0.3": "10.0.1.0/30", "10.0.0.0 0.0.0.3": "10.0.0.0/30", "object-group": "addrgroup", "eq 80 443": "eq 443", "permit ipip": "permit 94", "138.0.0.0 0.0.0.255": "138.0.0.0/24",
+           "10.0.1.0 0.0.0.0": "10.0.1.0/32"}
     for a, b in rep.items():
         line = line.replace(a, b)
     return line
